@@ -52,15 +52,12 @@ class Pipeline:
         if len(subs) != 1:
             raise AnalysisError("expected exactly one StatementStreamProcessor implementation, found %s" % [c.name for c in subs])
         self.builder = subs[0]
-        # state variables, by role
-        self.hdr_attr = "_comment_is_header"
-        self.cb_attr = "_element_callback"
-        self.line_attr = "_current_line_number"
-        self.sp_attr = "_statement_stream_processor"
-        for c, a in ((self.parser, self.hdr_attr), (self.builder, self.cb_attr), (self.parser, self.line_attr), (self.parser, self.sp_attr)):
-            init = c.methods.get("__init__")
-            if init is None or not any(isinstance(n, ast.Attribute) and n.attr == a for n in ast.walk(init.node)):
-                raise AnalysisError("state variable %s.%s not found" % (c.name, a))
+        # state variables, by role (discovered from how the code uses them, not by name)
+        self.sp_attr = self._discover_processor_field()
+        self.cb_attr = self._discover_callback_slot()
+        self.line_attr = self._discover_line_counter()
+        self.hdr_attr = self._discover_header_flag()
+        self.structs_attr = self._discover_schema_list()
         self.schema_reads = ("attributes", "fields", "constants", "offset")
         # the parser-side record of the pending attribute's line, if the code keeps one: the value a handler passes as
         # `line=` to set_error_location_if_unknown that is not the running counter
@@ -72,6 +69,89 @@ class Pipeline:
                         v = norm(k.value)
                         if k.arg == "line" and v.startswith("self.") and self.line_attr not in v and "current_line_number" not in v:
                             self.cap_attr = v.split(".", 1)[1]
+
+
+    # ---------------------------------------------------------------- role discovery
+    def _init_stores(self, c: ClassInfo) -> Dict[str, ast.AST]:
+        init = c.methods.get("__init__")
+        if init is None:
+            raise AnalysisError("%s.__init__ missing" % c.name)
+        out: Dict[str, ast.AST] = {}
+        for st in ast.walk(init.node):
+            if isinstance(st, (ast.Assign, ast.AnnAssign)):
+                tg = st.targets if isinstance(st, ast.Assign) else [st.target]
+                for t in tg:
+                    d = dotted(t) or ""
+                    if d.startswith("self.") and d.count(".") == 1 and st.value is not None:
+                        out[d.split(".")[1]] = st.value
+        return out
+
+    def _one(self, what: str, cands: List[str]) -> str:
+        cands = sorted(set(cands))
+        if len(cands) != 1:
+            raise AnalysisError("typestate: cannot identify %s (candidates: %s)" % (what, cands))
+        return cands[0]
+
+    def _discover_processor_field(self) -> str:
+        """the parser field through which the statement stream processor's callbacks are invoked"""
+        callbacks = {n for n in self.repo.lookup_method(self.builder, "on_directive") and self.builder.methods or {} if n.startswith("on_")}
+        base = next(c for c in self.repo.mro(self.builder) if getattr(c, "name", "") == "StatementStreamProcessor")
+        callbacks |= {n for n in getattr(base, "methods", {}) if n.startswith("on_")}
+        cands = []
+        for fn in self.parser.methods.values():
+            for c in ast.walk(fn.node):
+                if isinstance(c, ast.Call) and isinstance(c.func, ast.Attribute) and c.func.attr in callbacks and isinstance(c.func.value, ast.Attribute) and norm(c.func.value.value) == "self":
+                    cands.append(c.func.value.attr)
+        return self._one("the parser's statement stream processor field", cands)
+
+    def _discover_callback_slot(self) -> str:
+        """the builder field that is called like a function (the pending attribute's deferred commit)"""
+        stores = self._init_stores(self.builder)
+        cands = []
+        for fn in self.builder.methods.values():
+            for c in ast.walk(fn.node):
+                if isinstance(c, ast.Call) and isinstance(c.func, ast.Attribute) and norm(c.func.value) == "self" and c.func.attr in stores and c.func.attr not in self.builder.methods:
+                    v = stores[c.func.attr]
+                    if isinstance(v, ast.Constant) and v.value is None:  # empty at construction, filled while parsing
+                        cands.append(c.func.attr)
+        return self._one("the builder's pending-commit slot", cands)
+
+    def _discover_line_counter(self) -> str:
+        """the parser field advanced by one in the end-of-line visitor"""
+        eol = self.parser.methods.get("visit_end_of_line")
+        if eol is None:
+            raise AnalysisError("anchor visit_end_of_line missing")
+        cands = []
+        for st in ast.walk(eol.node):
+            if isinstance(st, ast.AugAssign) and isinstance(st.op, ast.Add) and (dotted(st.target) or "").startswith("self."):
+                cands.append(dotted(st.target).split(".")[1])  # type: ignore
+            elif isinstance(st, ast.Assign) and len(st.targets) == 1 and (dotted(st.targets[0]) or "").startswith("self.") and isinstance(st.value, ast.BinOp) and isinstance(st.value.op, ast.Add) and norm(st.value.left) == norm(st.targets[0]):
+                cands.append(dotted(st.targets[0]).split(".")[1])  # type: ignore
+        return self._one("the parser's line counter", cands)
+
+    def _discover_header_flag(self) -> str:
+        """the parser field initialised to True, assigned only the constants True / False, and tested"""
+        stores = self._init_stores(self.parser)
+        cands = []
+        for a, v in stores.items():
+            if not (isinstance(v, ast.Constant) and v.value is True):
+                continue
+            vals = []
+            tested = False
+            for fn in self.parser.methods.values():
+                for n in ast.walk(fn.node):
+                    if isinstance(n, ast.Assign) and any(dotted(t) == "self." + a for t in n.targets):
+                        vals.append(n.value)
+                    if isinstance(n, (ast.If, ast.IfExp, ast.While)) and any(isinstance(x, ast.Attribute) and dotted(x) == "self." + a for x in ast.walk(n.test)):
+                        tested = True
+            if tested and all(isinstance(x, ast.Constant) and isinstance(x.value, bool) for x in vals):
+                cands.append(a)
+        return self._one("the parser's header-comment flag", cands)
+
+    def _discover_schema_list(self) -> str:
+        """the builder field initialised to a list holding a fresh schema builder"""
+        cands = [a for a, v in self._init_stores(self.builder).items() if isinstance(v, ast.List) and any(isinstance(x, ast.Call) and (dotted(x.func) or "").endswith("DataSchemaBuilder") for x in v.elts)]
+        return self._one("the builder's list of schemas", cands)
 
 
 class Interp:
@@ -113,7 +193,7 @@ class Interp:
     def _reads(self, fn: FuncInfo, e: ast.AST, st: State, eff: List[Effect]) -> List[Effect]:
         out = list(eff)
         for n in ast.walk(e):
-            if isinstance(n, ast.Attribute) and n.attr in self.pl.schema_reads and ("_structs" in norm(n.value) or norm(n.value) in ("builder", "request_builder", "response_builder")):
+            if isinstance(n, ast.Attribute) and n.attr in self.pl.schema_reads and (self.pl.structs_attr in norm(n.value) or norm(n.value) in ("builder", "request_builder", "response_builder", "schema", "struct")):
                 out.append(Effect("READ", {"what": norm(n), "pend": st[1]}, self._where(fn, n)))
         return out
 
@@ -246,9 +326,9 @@ class Interp:
             return [(st, eff)]
         if isinstance(f, ast.Attribute) and norm(f.value) == "self.%s" % pl.sp_attr and cls is pl.parser:
             return self.run_method_from(pl.builder, f.attr, st, eff, prot)
-        if fs.endswith("_structs.append"):
+        if fs.endswith("%s.append" % pl.structs_attr):
             return [(st, eff + [Effect("NEW_SCHEMA", {"pend": pend}, self._where(fn, c))])]
-        if isinstance(f, ast.Name) and f.id == "handler" and cls is pl.builder and self.directive is not None:
+        if isinstance(f, ast.Name) and cls is pl.builder and self.directive is not None and fn.name == "on_directive" and f.id not in ("isinstance", "len", "str", "repr"):
             # dispatch through the directive table of on_directive
             table = None
             for n in ast.walk(fn.node):
